@@ -382,6 +382,311 @@ def _replay(work, p, o):
     return (rc == 3 and "ASSERTION-FAILED" in out), "%s: rc=%d %s" % (how, rc, out.strip()[-300:]), vals, cmd + " && ./replay " + " ".join(str(v) for v in vals)
 
 
+# ------------------------------------------------------------------------------------------------------------------
+# (c) ConcurrentFlyweight::findOrInsert, sequential, from a symbolic lane state
+# ------------------------------------------------------------------------------------------------------------------
+FW_HDR = "src/include/souffle/datastructure/ConcurrentFlyweight.h"
+FW_WRAPPER = WRAPPER[:WRAPPER.index('#define private public')] + r"""#define private public
+#define protected public
+#include "souffle/datastructure/ConcurrentFlyweight.h"
+#undef private
+#undef protected
+using namespace souffle;
+struct IdHash { std::size_t operator()(int k) const { return (std::size_t)(unsigned)k; } };
+using FW = ConcurrentFlyweight<SeqConcurrentLanes, int, IdHash>;
+using Map = FW::map_type;
+using BL = Map::BucketList;
+using VT = FW::value_type;
+/* constructors outside the claim: the object lives in a union, k_fw_init sets the fields (8 slots, 1 lane, 1-2 buckets, no growth) */
+union Holder { FW f; Holder() {} ~Holder() {} };
+static Holder HOLD;
+static std::atomic<BL*> BUCKETS[2];
+static FW::Handle HANDLES[1];
+static const VT* SLOTS[8];
+FW* g_fw = nullptr; /* set by k_fw_init; a non-constant base pointer keeps the address computations as instructions */
+static FW* F() { return g_fw; }
+static std::uintptr_t& slot(int b) { return *reinterpret_cast<std::uintptr_t*>(&BUCKETS[b]); }
+extern "C" {
+__attribute__((noinline)) void k_fw_init(int nb, unsigned long nextslot, unsigned long slotcount, int reserve_first) {
+    g_fw = &HOLD.f; FW* f = g_fw;
+    new (&f->Lanes) SeqConcurrentLanes(1);
+    f->HandleCount = 1;
+    new (&f->Handles) std::unique_ptr<FW::Handle[]>(HANDLES);
+    new (&f->Slots) std::unique_ptr<const VT*[]>(SLOTS);
+    Map* m = &f->Mapping;
+    new (&m->Lanes) SeqConcurrentLanes(1);
+    m->BucketCount = (std::size_t)nb;
+    new (&m->Buckets) std::unique_ptr<std::atomic<BL*>[]>(BUCKETS);
+    slot(0) = 0; slot(1) = 0;
+    *reinterpret_cast<std::size_t*>(&m->Size) = 0;
+    m->MaxSizeBeforeGrow = 1000; m->LoadFactor = 1.0;
+    *reinterpret_cast<std::size_t*>(&f->NextSlot) = nextslot;
+    *reinterpret_cast<std::size_t*>(&f->SlotCount) = slotcount;
+    const_cast<bool&>(f->FirstSlotIsReserved) = reserve_first != 0;
+    HANDLES[0].NextSlot = FW::NONE; HANDLES[0].NextNode = nullptr;
+    for (int i = 0; i < 8; i++) SLOTS[i] = nullptr;
+}
+/* out: [0] index, [1] inserted */
+__attribute__((noinline)) void k_fw_find_or_insert(int key, unsigned long* out) {
+    auto r = F()->findOrInsert(0, key);
+    out[0] = r.first; out[1] = r.second ? 1 : 0;
+}
+/* harness accessors: build the pre-state (entries, lane reservation) and inspect the post-state */
+__attribute__((noinline)) BL* k_fw_mknode(unsigned long idx) { return static_cast<BL*>(F()->Mapping.node(idx)); }
+__attribute__((noinline)) void k_fw_link(BL* n, int key) {
+    Map* m = &F()->Mapping; const_cast<int&>(n->Value.first) = key;
+    std::size_t b = (std::size_t)(unsigned)key % m->BucketCount;
+    n->Next = reinterpret_cast<BL*>(slot((int)b)); slot((int)b) = reinterpret_cast<std::uintptr_t>(n);
+    *reinterpret_cast<std::size_t*>(&m->Size) += 1;
+}
+__attribute__((noinline)) void k_fw_set_slot(unsigned long i, BL* n) { SLOTS[i] = n ? &n->Value : nullptr; }
+__attribute__((noinline)) int k_fw_slot_is(unsigned long i, BL* n) { return SLOTS[i] == (n ? &n->Value : nullptr); }
+__attribute__((noinline)) void k_fw_set_handle(unsigned long s, BL* n) { HANDLES[0].NextSlot = s; HANDLES[0].NextNode = n; }
+__attribute__((noinline)) int k_fw_handle_node_is(BL* n) { return HANDLES[0].NextNode == static_cast<Map::node_type>(n); }
+__attribute__((noinline)) long k_fw_find(int key) { auto p = F()->Mapping.weakFind(0, key); return p ? (long)p->second : -1; }
+__attribute__((noinline)) unsigned long k_fw_mapsize(void) { return *reinterpret_cast<std::size_t*>(&F()->Mapping.Size); }
+__attribute__((noinline)) int k_fw_fetch(unsigned long idx) { return F()->fetch(0, idx); }
+__attribute__((noinline)) unsigned long k_fw_nextslot(void) { return *reinterpret_cast<std::size_t*>(&F()->NextSlot); }
+__attribute__((noinline)) unsigned long k_fw_handle_slot(void) { return HANDLES[0].NextSlot; }
+__attribute__((noinline)) int k_fw_handle_has_node(void) { return HANDLES[0].NextNode != nullptr; }
+__attribute__((noinline)) int k_fw_slot_key(unsigned long i) { return SLOTS[i] ? SLOTS[i]->first : -1; }
+__attribute__((noinline)) long k_fw_slot_index(unsigned long i) { return SLOTS[i] ? (long)SLOTS[i]->second : -1; }
+__attribute__((noinline)) int k_fw_slot_set(unsigned long i) { return SLOTS[i] != nullptr; }
+}
+"""
+
+FW_HARNESS = r"""
+#include "verif_rt.h"
+#define MAXN (PRE + 2)
+#ifdef VERIF_REAL
+typedef struct NODE_ NODE;
+void k_fw_init(uint32_t, uint64_t, uint64_t, uint32_t); void k_fw_find_or_insert(uint32_t, uint64_t*); NODE* k_fw_mknode(uint64_t); void k_fw_link(NODE*, uint32_t);
+void k_fw_set_slot(uint64_t, NODE*); uint32_t k_fw_slot_is(uint64_t, NODE*); void k_fw_set_handle(uint64_t, NODE*); uint32_t k_fw_handle_node_is(NODE*);
+uint64_t k_fw_find(uint32_t); uint64_t k_fw_mapsize(void); uint32_t k_fw_fetch(uint64_t); uint64_t k_fw_nextslot(void); uint64_t k_fw_handle_slot(void);
+uint32_t k_fw_handle_has_node(void); uint32_t k_fw_slot_key(uint64_t); uint64_t k_fw_slot_index(uint64_t); uint32_t k_fw_slot_set(uint64_t);
+static void verif_init_vtables(void) {}
+#else
+#include "fw.c"
+typedef NODE_T NODE;
+NODE POOL[MAXN]; int pool_used = 0;
+uint8_t* _Znwm(uint64_t n) { VERIF_ASSERT(n == sizeof(NODE), "only bucket nodes are allocated"); VERIF_ASSERT(pool_used < MAXN, "pool large enough"); return (uint8_t*)&POOL[pool_used++]; }
+uint8_t* _Znam(uint64_t n) { VERIF_ASSERT(0, "operator new[] (growth) is outside the claim and must not be reached"); __CPROVER_assume(0); return 0; }
+void _ZdlPv(uint8_t* p) { VERIF_ASSERT(0, "nothing is freed"); }
+void _ZdaPv(uint8_t* p) { VERIF_ASSERT(0, "nothing is freed"); }
+uint8_t TRYGROW(TRYGROW_ARGS) { VERIF_ASSERT(0, "growth is outside the claim and must not be reached"); __CPROVER_assume(0); return 0; }
+void verif_assert_fail(uint8_t* a, uint8_t* f, uint32_t l, uint8_t* fn) { VERIF_ASSERT(0, "assert() inside the real code failed"); __CPROVER_assume(0); }
+#endif
+#ifdef VERIF_NATIVE
+static int ai = 1, ac; static char** av;
+static int64_t nondet_i64(void) { if (ai >= ac) { printf("not enough inputs\n"); exit(2); } return (int64_t)strtoll(av[ai++], 0, 0); }
+#else
+int64_t nondet_i64(void);
+#endif
+#define NONE 0xffffffffffffffffULL
+/* inputs, one variable each so that they can be read from the trace */
+int64_t FW_NEXT0, FW_RF, FW_PK0, FW_PK1, FW_PK2, FW_PX0, FW_PX1, FW_PX2, FW_HASRES, FW_S, FW_KEY;
+int32_t PK[PRE + 1]; uint64_t PX[PRE + 1]; NODE* PN[PRE + 1];
+#ifdef VERIF_NATIVE
+int main(int argc, char** argv) {
+  ac = argc; av = argv;
+#else
+int main(void) {
+#endif
+  verif_init_vtables();
+  FW_NEXT0 = nondet_i64(); uint64_t next0 = (uint64_t)FW_NEXT0; __CPROVER_assume(next0 <= 6);
+  FW_RF = nondet_i64(); __CPROVER_assume(FW_RF == 0 || FW_RF == 1); int rf = (int)FW_RF;
+  k_fw_init(NB, next0, 8, rf);
+  /* the table: PRE indexed keys, distinct keys, distinct indices below NextSlot (index 0 unused when the first slot is reserved) */
+  for (int i = 0; i < PRE; i++) {
+    int64_t k = nondet_i64(), x = nondet_i64(); __CPROVER_assume(k >= -2147483647 - 1 && k <= 2147483647);
+    if (i == 0) { FW_PK0 = k; FW_PX0 = x; } else if (i == 1) { FW_PK1 = k; FW_PX1 = x; } else { FW_PK2 = k; FW_PX2 = x; }
+    PK[i] = (int32_t)k; PX[i] = (uint64_t)x; __CPROVER_assume(PX[i] < next0 && (!rf || PX[i] != 0));
+    for (int j = 0; j < i; j++) __CPROVER_assume(PK[j] != PK[i] && PX[j] != PX[i]);
+    PN[i] = k_fw_mknode(PX[i]); k_fw_link(PN[i], PK[i]); k_fw_set_slot(PX[i], PN[i]); }
+  /* the lane: either no reservation, or a slot reserved earlier (below NextSlot, not used by any key, empty) with its prepared node */
+  FW_HASRES = nondet_i64(); __CPROVER_assume(FW_HASRES == 0 || FW_HASRES == 1); int has_res = (int)FW_HASRES;
+  uint64_t s = NONE; NODE* ns = 0;
+  if (has_res) { FW_S = nondet_i64(); s = (uint64_t)FW_S; __CPROVER_assume(s < next0 && (!rf || s != 0)); for (int j = 0; j < PRE; j++) __CPROVER_assume(PX[j] != s);
+    ns = k_fw_mknode(s); k_fw_set_handle(s, ns); }
+  FW_KEY = nondet_i64(); __CPROVER_assume(FW_KEY >= -2147483647 - 1 && FW_KEY <= 2147483647); int32_t key = (int32_t)FW_KEY;
+  int present = -1; for (int j = 0; j < PRE; j++) if (PK[j] == key) present = j;
+  uint64_t out[2];
+  k_fw_find_or_insert(key, out);
+  uint64_t idx = out[0]; int inserted = (int)out[1];
+  uint64_t expect_slot = has_res ? s : next0;
+  for (int j = 0; j < PRE; j++) VERIF_ASSERT(k_fw_slot_is(PX[j], PN[j]) && k_fw_find(PK[j]) == PX[j], "existing entries keep their index and slot");
+  if (present >= 0) {
+    VERIF_ASSERT(!inserted && idx == PX[present], "an indexed key returns its index and is not re-inserted");
+    VERIF_ASSERT(k_fw_handle_slot() == expect_slot && k_fw_handle_has_node() && (!has_res || k_fw_handle_node_is(ns)), "the lane keeps its reserved slot and node for the next insertion");
+    VERIF_ASSERT(!k_fw_slot_set(expect_slot), "the reserved slot is left empty");
+    VERIF_ASSERT(k_fw_mapsize() == PRE, "nothing was added to the map");
+  } else {
+    VERIF_ASSERT(inserted && idx == expect_slot, "a fresh key gets the lane's reserved slot, or the next free one");
+    for (int j = 0; j < PRE; j++) VERIF_ASSERT(idx != PX[j], "the new index is not shared with another key");
+    VERIF_ASSERT(k_fw_slot_set(idx) && (int32_t)k_fw_slot_key(idx) == key && k_fw_slot_index(idx) == idx && (int32_t)k_fw_fetch(idx) == key, "the slot points to the entry of the key, which maps to the index");
+    VERIF_ASSERT(k_fw_find(key) == idx && k_fw_mapsize() == PRE + 1, "the map holds the new entry");
+    VERIF_ASSERT(k_fw_handle_slot() == NONE && !k_fw_handle_has_node(), "the lane's reservation is consumed");
+  }
+  VERIF_ASSERT(k_fw_nextslot() == next0 + (has_res ? 0 : 1), "NextSlot advances exactly when a new slot is reserved");
+#ifdef WITNESS
+  __CPROVER_assert(!(inserted && has_res && PRE + 0 <= (int)next0), "witness");
+#endif
+#ifdef VERIF_NATIVE
+  printf("replay finished without assertion failure: index=%lu inserted=%d\n", (unsigned long)idx, inserted);
+#endif
+  return 0;
+}
+"""
+
+FW_DRIVER = r"""
+#include <stdio.h>
+#include <stdint.h>
+#include <stdlib.h>
+void k_fw_init(uint32_t, uint64_t, uint64_t, uint32_t); void k_fw_find_or_insert(uint32_t, uint64_t*); uint64_t k_fw_find(uint32_t); uint64_t k_fw_mapsize(void);
+uint32_t k_fw_fetch(uint64_t); uint64_t k_fw_nextslot(void); uint64_t k_fw_handle_slot(void); uint32_t k_fw_handle_has_node(void); uint32_t k_fw_slot_key(uint64_t); uint32_t k_fw_slot_set(uint64_t);
+__attribute__((weak)) void verif_init_vtables(void) {}
+__attribute__((weak)) void* _Znwm(uint64_t n) { return calloc(1, n); }
+__attribute__((weak)) void* _Znam(uint64_t n) { printf("operator new[] reached\n"); exit(5); }
+__attribute__((weak)) void _ZdlPv(void* p) { }
+__attribute__((weak)) void _ZdaPv(void* p) { }
+__attribute__((weak)) uint8_t TRYGROW(void* m, uint64_t h) { printf("tryGrow reached\n"); exit(5); }
+__attribute__((weak)) void verif_assert_fail(void* a, void* f, uint32_t l, void* fn) { printf("assert failed\n"); exit(6); }
+int main(void) {
+  unsigned s = 2463534242u;
+  verif_init_vtables();
+  for (int nb = 1; nb <= 2; nb++) for (int h = 0; h < 60; h++) {
+    int rf = h & 1; k_fw_init(nb, rf ? 1 : 0, 8, rf);
+    for (int i = 0; i < 10; i++) {
+      s = s * 1103515245u + 12345u; uint32_t key = (s >> 16) % 6; if ((s >> 28) == 0) key = 0x80000000u + key % 2;
+      uint64_t out[2]; k_fw_find_or_insert(key, out);
+      printf("nb%d h%d foi %u -> idx %lu ins %lu fetch %u find %ld size %lu next %lu handle %ld/%u |", nb, h, key, (unsigned long)out[0], (unsigned long)out[1], k_fw_fetch(out[0]),
+             (long)k_fw_find(key), (unsigned long)k_fw_mapsize(), (unsigned long)k_fw_nextslot(), (long)k_fw_handle_slot(), k_fw_handle_has_node());
+      for (int j = 0; j < 8; j++) if (k_fw_slot_set(j)) printf(" %d:%u", j, k_fw_slot_key(j)); printf("\n");
+    }
+  }
+  return 0;
+}
+"""
+
+
+def _cut_trygrow(t):
+    names = []
+    while True:
+        m = re.search(r"^define [^\n]*@(_ZN7souffle\w+7tryGrowEm)\(([^\n]*)\)[^\n]*\{\n.*?^\}\n", t, re.M | re.S)
+        if not m:
+            break
+        names.append(m.group(1))
+        hdr = t[m.start():t.index("\n", m.start())]
+        decl = re.sub(r"^define (?:linkonce_odr |dso_local |internal |weak_odr )*", "declare ", hdr)
+        decl = re.sub(r"\)[^()]*\{$", ")", decl)
+        decl = re.sub(r" %\d+(?=[,)])", "", decl)
+        t = t[:m.start()] + decl + "\n" + t[m.end():]
+    return t, names
+
+
+def _prepare_fw(work):
+    cpp = os.path.join(work, "fw.cpp")
+    open(cpp, "w").write(FW_WRAPPER)
+    ll = K.lower(cpp, os.path.join(work, "fw.ll"), extra=["-fno-exceptions"])
+    t, names = _cut_trygrow(open(ll).read())
+    maps = [n for n in names if "ConcurrentInsertOnlyHashMap" in n]
+    if len(maps) != 1:
+        raise EngineError("hash-map tryGrow not found exactly once in the lowered flyweight IR: %s" % names)
+    others = [n for n in names if n not in maps]
+    open(ll, "w").write(t)
+    c24.strip_personality(ll)
+    c = K.translate(ll, os.path.join(work, "fw.c"))
+    src = open(c).read().replace("__assert_fail", "verif_assert_fail")
+    src, n = re.subn(r"^(struct S__struct_std____atomic_base_\w*_ \{ )struct S__\w*BucketList_\*( f0; \};)$", r"\1uint64_t\2", src, flags=re.M)
+    if n != 1:
+        raise EngineError("atomic bucket-head struct not recognised in the translated flyweight C (%d matches)" % n)
+    m = re.search(r"^(struct S__\w*BucketList_)\* k_fw_mknode\(", src, re.M)
+    if not m:
+        raise EngineError("k_fw_mknode not found in the translated C")
+    node_t = m.group(1)
+    # virtual call Node::value() in findOrInsert: the translator drops constant initialisers, so the vtables are filled by a generated function
+    init = []
+    for mv in re.finditer(r"^@(_ZTV\w+) = [^\n]*\{ \[(\d+) x i8\*\] \[([^\n]*)\] \}", t, re.M):
+        ents = re.findall(r"i8\* (null|bitcast \([^@]*@(\w+) to i8\*\))", mv.group(3))
+        for k, (e, fn) in enumerate(ents):
+            if fn and re.search(r"^[^\n;]*\b%s\([^;\n]*\) \{$" % re.escape(fn), src, re.M):
+                init.append("  %s.f0.a[%d] = (uint8_t*)&%s;" % (mv.group(1), k, fn))
+    if not any("5valueEv" in x for x in init):
+        raise EngineError("vtable entry of BucketList::value() not found in the lowered IR")
+    src += "\nvoid verif_init_vtables(void) {\n" + "\n".join(init) + "\n}\n"
+    mg = re.search(r"^uint8_t %s\(([^)]*)\);" % re.escape(maps[0]), src, re.M)
+    if not mg:
+        raise EngineError("declaration of the hash map's tryGrow not found in the translated flyweight C")
+    args = ", ".join("%s a%d" % (a.strip(), i) for i, a in enumerate(mg.group(1).split(",")))
+    if others:
+        raise EngineError("flyweight tryGrow was not inlined into findOrInsert (%s): harness out of date" % others)
+    src = "#define NODE_T %s\n#define TRYGROW %s\n#define TRYGROW_ARGS %s\n" % (node_t, maps[0], args) + src
+    open(c, "w").write(src)
+    drv = os.path.join(work, "drvfw.c")
+    open(drv, "w").write(FW_DRIVER.replace("TRYGROW", maps[0]))
+    nlines = K.differential(work, drv, c, cpp, extra_cxx=["-fno-exceptions"], extra_c=["-D__dso_handle=verif_dso_handle"])
+    h = os.path.join(work, "hfw.c")
+    open(h, "w").write(FW_HARNESS)
+    return {"h": h, "cpp": cpp, "nlines": nlines}
+
+
+def _fw_configs(tier):
+    return [(2, 1), (1, 2)] if tier == "quick" else [(p, nb) for nb in (1, 2) for p in (0, 1, 2, 3)]
+
+
+def _fw_obligation(pf, cfg, tier):
+    pre, nb = cfg
+    name = "findOrInsert/indexed-keys=%d/buckets=%d" % (pre, nb)
+    return K.Obligation(name, [pf["h"]], defines=["PRE=%d" % pre, "NB=%d" % nb], unwind=pre + 3, timeout=120 if tier == "quick" else 900,
+                        extra=["--pointer-check", "--bounds-check"], includes=[os.path.dirname(pf["h"])],
+                        meta={"indexed_keys": pre, "buckets": nb, "lane_state": "no reservation / reserved slot with prepared node (symbolic)",
+                              "NextSlot": "symbolic <= 6 of 8 slots", "FirstSlotIsReserved": "both", "_fw": cfg})
+
+
+def _fw_replay(work, pf, o):
+    pre, nb = o.meta["_fw"]
+    names = ["FW_NEXT0", "FW_RF"] + [x for i in range(pre) for x in ("FW_PK%d" % i, "FW_PX%d" % i)] + ["FW_HASRES"]
+    vals = [_int64(o.res, n) for n in names]
+    if any(v is None for v in vals):
+        return None, "inputs could not be read from the trace", vals, ""
+    if vals[-1] == 1:
+        names.append("FW_S")
+        vals.append(_int64(o.res, "FW_S"))
+    names.append("FW_KEY")
+    vals.append(_int64(o.res, "FW_KEY"))
+    if any(v is None for v in vals):
+        return None, "inputs could not be read from the trace", vals, ""
+    defs = ["-DPRE=%d" % pre, "-DNB=%d" % nb, "-DVERIF_NATIVE", "-DVERIF_REAL"]
+    ob, exe = os.path.join(work, "rpfw_%d_%d.o" % cfg_tag(pre, nb)), os.path.join(work, "rpfw_%d_%d" % cfg_tag(pre, nb))
+    rc, out, err = sh(["gcc", "-O0", "-w", "-c"] + defs + ["-I", K.HERE, "-I", work, pf["h"], "-o", ob], timeout=120)
+    if rc == 0:
+        rc, out, err = sh(["g++", "-std=c++17", "-O1", "-w", "-fno-exceptions", "-I", os.path.join(common.REPO, "src", "include"), "-I", os.path.join(common.REPO, "src"),
+                           ob, pf["cpp"], "-o", exe], timeout=300)
+    cmd = ("gcc -O0 -w -c %s -I /verif/engine_k -I . hfw.c -o h.o && g++ -std=c++17 -O1 -w -fno-exceptions -I %s/src/include -I %s/src h.o fw.cpp -o replay && ./replay %s"
+           % (" ".join(defs), common.REPO, common.REPO, " ".join(str(v) for v in vals)))
+    if rc != 0:
+        return None, "native replay build failed: " + err[-400:], vals, cmd
+    rc, out, err = sh([exe] + [str(v) for v in vals], timeout=20)
+    return (rc == 3 and "ASSERTION-FAILED" in out), "g++ build of the real wrapper TU: rc=%d %s; inputs %s" % (rc, out.strip()[-300:], dict(zip(names, vals))), vals, cmd
+
+
+def cfg_tag(pre, nb):
+    return (pre, nb)
+
+
+def _int64(r, nm):
+    v = r.trace_values([nm]).get(nm)
+    if not v:
+        return None
+    if v[1]:
+        u = int(v[1].replace(" ", ""), 2)
+        return u - (1 << 64) if u >= (1 << 63) else u
+    try:
+        return int(v[0].rstrip("uUlL"))
+    except ValueError:
+        return None
+
+
 def run(tier, seed, only=None):
     t0 = time.time()
     res = common.Result(PID, "other")
@@ -389,11 +694,37 @@ def run(tier, seed, only=None):
     try:
         p = _prepare(work)
         obls = [_obligation(p, c, tier) for c in _configs(tier)]
+        fw_error = None
+        try:
+            pf = _prepare_fw(work)
+            obls += [_fw_obligation(pf, c, tier) for c in _fw_configs(tier)]
+        except EngineError as e:
+            pf, fw_error = None, str(e)[:500]
         if only:
             obls = [o for o in obls if only in o.name]
         K.run_all(obls, jobs=6)
         dropped = []
+        if fw_error:
+            dropped.append({"obligation": "findOrInsert/*", "reason": "kernel could not be prepared: " + fw_error})
+            res.inconc("ConcurrentFlyweight::findOrInsert kernel could not be prepared: " + fw_error)
         for o in obls:
+            if "_fw" in o.meta:
+                if o.verdict == "violated":
+                    failed = "; ".join(sorted(set(d for n, d in o.res.failed)))
+                    ok, info, vals, cmd = _fw_replay(work, pf, o)
+                    if ok:
+                        d = K.save_replay(PID, re.sub(r"[^A-Za-z0-9_.-]", "_", o.name), {
+                            "hfw.c": open(pf["h"]).read(), "fw.cpp": FW_WRAPPER, "trace.txt": o.res.out[-30000:],
+                            "README": "%s\nfailed: %s\nreproduced: %s\nrebuild: %s\n" % (o.name, failed, info, cmd)})
+                        first = sorted(set(d_ for n, d_ in o.res.failed))[0]
+                        res.violation("findOrInsert:%s" % re.sub(r"[^A-Za-z0-9]+", "-", first)[:60],
+                                      "ConcurrentFlyweight::findOrInsert: %s [%s; %s]" % (failed, o.name, info), d)
+                    else:
+                        res.inconc("counterexample for %s (%s) did not reproduce natively: %s" % (o.name, failed, info))
+                elif o.verdict != "holds":
+                    res.inconc("%s: %s" % (o.name, o.why))
+                    dropped.append({"obligation": o.name, "reason": o.why[:200]})
+                continue
             pre, env, nb, keymax = o.meta["_cfg"]
             if o.verdict == "violated":
                 failed = "; ".join(sorted(set(d for n, d in o.res.failed)))
@@ -415,26 +746,32 @@ def run(tier, seed, only=None):
         held = [o for o in obls if o.verdict == "holds"]
         for o in obls:
             o.meta.pop("_cfg", None)
+            o.meta.pop("_fw", None)
         nprops = sum(o.res.n_props for o in obls if o.res)
         res.coverage = {
             "explanation": "ConcurrentInsertOnlyHashMap<SeqConcurrentLanes,int,int,identity hash>::get decided by CBMC on the IR-derived C: one query per "
                            "(initial nodes, environment insertions, buckets, key domain); inside a query the keys, the initial table and the positions "
                            "(yield points before each atomic step of get) of the environment's insertions are universally quantified. "
-                           "env=0 is the sequential claim (a), env=1,2 the bounded-interference claim (b).",
+                           "env=0 is the sequential claim (a), env=1,2 the bounded-interference claim (b).  (c) ConcurrentFlyweight<SeqConcurrentLanes,int>::"
+                           "findOrInsert, sequential: from every table of 0..3 indexed keys (symbolic keys and indices), every lane state (no reservation / "
+                           "a reserved slot with its prepared node) and every NextSlot <= 6 of 8 slots: an indexed key returns its index and keeps the lane's "
+                           "reservation, a fresh key gets the reserved (or next free) slot, unique among the indices, the slot points to its entry, the "
+                           "reservation is consumed and NextSlot advances exactly when a slot is reserved.",
             "obligations": len(obls), "discharged": len(held),
             "properties_decided": nprops,
             "exhaustive": False,
             "functions_encoded": ["souffle::ConcurrentInsertOnlyHashMap<SeqConcurrentLanes,int,int,IdHash>::get", "::node", "::weakFind (translation validation only)",
-                                  "souffle::SeqConcurrentLanes::lock/unlock", "souffle::details::Factory<int>::replace"],
+                                  "souffle::SeqConcurrentLanes::lock/unlock", "souffle::details::Factory<int>::replace",
+                                  "souffle::ConcurrentFlyweight<SeqConcurrentLanes,int,IdHash>::findOrInsert (+ Handle::clear, the inlined but unreachable tryGrow), ::fetch"],
             "atomic_steps_of_get": p["sites"],
-            "source": {HDR: common.file_sha(common.repo_file(HDR)), PAR: common.file_sha(common.repo_file(PAR))},
+            "source": {HDR: common.file_sha(common.repo_file(HDR)), PAR: common.file_sha(common.repo_file(PAR)), FW_HDR: common.file_sha(common.repo_file(FW_HDR))},
             "bounds": {"initial nodes": "0..3 (%s; every table state with that many nodes: distinct symbolic keys)" % ("all counts x all interference levels" if tier == "thorough" else "quick: the combinations listed in samples"),
                        "environment insertions": "<= 2, before any atomic step",
                        "buckets": "1 and 2", "keys": "0..15 (every equality / bucket pattern of <= 6 keys) and, where listed, all 32-bit keys",
                        "lanes": "the operation's lane; other lanes only through their insertions", "memory_model": "SC"},
             "queries": sum((1 if o.res else 0) + (1 if o.wres else 0) for o in obls),
             "solver_time_s": round(sum((o.res.time if o.res else 0) + (o.wres.time if o.wres else 0) for o in obls), 1),
-            "translation_validation_lines": p["nlines"],
+            "translation_validation_lines": p["nlines"] + (pf["nlines"] if pf else 0),
             "checker_cmd": obls[0].res.cmd if obls and obls[0].res else "",
             "samples": [o.sample() for o in obls],
             "dropped_from_the_claim": dropped,
@@ -443,7 +780,9 @@ def run(tier, seed, only=None):
                 "(bucket heads, Next links); replaced by the environment-insertion model above, which is exact for what another lane's get() does to shared memory under SC",
                 "growth: tryGrow (lock-all, rehash) is cut out of the IR and asserted unreachable (MaxSizeBeforeGrow = 1000); iteration across growth",
                 "the constructor (ToPrime table, >= 13 buckets): the table is set up with 1 or 2 buckets by the harness",
-                "ConcurrentFlyweight::findOrInsert slot reservation / tryGrow, Iterator; SymbolTableImpl / RecordTableImpl (std::string keys, per-arity record maps, nil record)",
+                "ConcurrentFlyweight: concurrent findOrInsert (two lanes racing for the same key: only the hash-map level is covered by (b)), growth of the slot "
+                "array (tryGrow, lock-all), the Iterator (iteration lists every symbol once, also across growth), setNumLanes",
+                "SymbolTableImpl / RecordTableImpl (std::string keys, per-arity record maps, nil record)",
                 "MutexConcurrentLanes (std::mutex): same-lane exclusion is not modelled, every lane is its own lane",
                 "weak memory (acquire/release/relaxed orderings)"],
         }
